@@ -109,25 +109,34 @@ def case_twigs_exact(ctx, case, be=None):
                               'prune_twigs/exact/KeyError-path_len' if isinstance(e, KeyError) else None))
         return
     kept_untouched(ctx, x, y, dict(case, exact=True), 'prune_twigs(exact)', be)
-    # every surviving original leaf-to-branch twig longer than size lost exactly `size` of cable
+    # --- exact definition: heights (largest path length down to a distal tip) decide; see Model/Prune.lean `exactPrune`
+    from fractions import Fraction
+    fr = Fraction(size).limit_denominator(1 << 20)
+    model = ctx.ask(f'p.exact {fr.numerator}/{fr.denominator} | {G.wire_neuron(x)}')
+    c0 = coords_of(x)
     pm0 = parent_map(x)
-    ch = {}
-    for i, p in pm0.items():
-        ch.setdefault(p, []).append(i)
-    segs = {s[0]: s for s in x.small_segments}
-    lens = {}
-    for l, s in segs.items():
-        if l in ch:
-            continue
-        lens[l] = float(navis.segment_length(x, s))
-    cab0, cab1 = float(x.cable_length), float(y.cable_length)
-    # simple (unambiguous) situation: all terminal twigs strictly longer than size, and tree has a branch point
-    if lens and all(v > size for v in lens.values()) and any(len(v) > 1 for k, v in ch.items() if k >= 0):
-        want = cab0 - size * len(lens)
-        ctx.oracle(abs(cab1 - want) <= 1e-6 * max(1, cab0), f'prune_twigs(exact, size={size}): cable {cab0} -> {cab1}, expected {want} '
-                   f'(exactly size removed from each of {len(lens)} tips) [{be}]', case)
-        ctx.oracle(set(parent_map(y)) <= set(pm0) and len(y.leafs) == len(lens), f'prune_twigs(exact): number of tips changed [{be}]', case)
-        ctx.count('exact_checked', 1)
+    want_topo, want_xyz = [], {}
+    for tok in model.split():
+        i, p, tau = tok.split(':')
+        i, p = int(i), int(p)
+        tn, td = tau.split('/')
+        t = Fraction(int(tn), int(td))
+        want_topo.append((i, p if p >= 0 else -1))
+        a = c0[i][:3]
+        if t != 0:
+            b = c0[p][:3]
+            want_xyz[i] = tuple(float(Fraction(a[k]) + (Fraction(b[k]) - Fraction(a[k])) * t) for k in range(3))
+        else:
+            want_xyz[i] = tuple(a)
+    pm = parent_map(y)
+    got_topo = sorted((i, p if p >= 0 else -1) for i, p in pm.items())
+    ctx.defn(got_topo, sorted(want_topo), f'prune_twigs(exact=True, size={size}): kept nodes / parents vs "exactly size of cable from every tip" [{be}]', case)
+    if got_topo == sorted(want_topo):
+        c1 = coords_of(y)
+        bad = [i for i in pm if max(abs(c1[i][k] - want_xyz[i][k]) for k in range(3)) > 1e-6]
+        ctx.oracle(not bad, f'prune_twigs(exact=True, size={size}): new tip position of node(s) {bad[:4]} is not exactly `size` of cable from the '
+                            f'farthest original tip below it [{be}]', case)
+    ctx.count('exact_checked', 1)
 
 
 def sel_to_py(sel):
@@ -161,8 +170,15 @@ def case_strahler(ctx, case, be=None):
     wire = G.wire_neuron(x)
     sel = case['sel']
     reloc = case.get('relocate', False)
+    soma = case.get('soma')
+    if soma is not None:
+        x.soma = soma
     try:
-        y = navis.prune_by_strahler(x, sel_to_py(sel), reroot_soma=False, relocate_connectors=reloc, inplace=False)
+        y = navis.prune_by_strahler(x, sel_to_py(sel), reroot_soma=soma is not None, relocate_connectors=reloc,
+                                    inplace=case.get('inplace', False))
+        if case.get('inplace'):
+            y = x
+            x = G.to_neuron(rows); add_connectors(x, random.Random(case['seed']), rows); x.soma = soma
         impl = G.topo_neuron(y) if len(y.nodes) else ''
     except ValueError as e:
         impl = 'ERR'
@@ -170,6 +186,11 @@ def case_strahler(ctx, case, be=None):
         sig = 'prune_by_strahler/relocate/no-surviving-ancestor' if (reloc and isinstance(e, KeyError)) else None
         ctx.oracle(False, f'prune_by_strahler({sel}, relocate_connectors={reloc}) raised {type(e).__name__}: {str(e)[:100]} [{be}]', case, signature=sig)
         return
+    if soma is not None:
+        # the function first reroots (a copy) to the soma: the definition applies to the rerooted skeleton
+        x = navis.reroot_skeleton(x, soma, inplace=False)
+        wire = G.wire_neuron(x)
+        ctx.count('strahler_reroot_soma', 1)
     model = ctx.ask(f'p.bystrahler {sel_wire(sel)} | {wire}')
     ctx.count('strahler_sel', sel[0])
     sig = 'strahler/python-sweep/branching-root' if be in ('igraph', 'networkx') else None
@@ -253,12 +274,15 @@ def gen_cases(ctx, nf=None):
             mask = [i for i in ids if r.random() < 0.6]
         yield ('twigs', dict(rows=rows, size=r.choice([0, 1, 2, 3, 5, 7, 9, 11, 14, 18, 22, 40]), recursive=r.choice([False, False, True, 1, 2]),
                              mask=mask, maskform=r.choice(['ids', 'bool']), meta=meta))
-        if k % 4 == 0:
-            yield ('twigs_exact', dict(rows=rows, size=r.choice([0.5, 1.5, 2.25, 4.5]), meta=meta))
+        if k % 2 == 0 and not any(rw.get('zero') for rw in rows) and k % 9 != 0:
+            yield ('twigs_exact', dict(rows=rows, size=r.choice([0.5, 1.5, 2.25, 3, 4.5, 5, 7.5, 9, 12]), meta=meta))
         sel = r.choice([('int', r.choice([1, 1, 2, 3, -1, -2, 0])), ('list', [r.randint(1, 4) for _ in range(r.randint(1, 2))]),
                         ('range', 1, r.randint(1, 4)), ('range', 2, r.randint(2, 5)),
                         ('slice', r.choice([None, 0, 1, -1]), r.choice([None, 1, 2, -1]))])
         yield ('strahler', dict(rows=rows, sel=list(sel), relocate=r.random() < 0.3, seed=r.randrange(10 ** 9), meta=meta))
+        if k % 2 == 0:
+            yield ('strahler', dict(rows=rows, sel=list(sel), relocate=r.random() < 0.6, soma=r.choice(ids), inplace=r.random() < 0.3,
+                                    seed=r.randrange(10 ** 9), meta=meta))
         yield ('depth', dict(rows=rows, source=r.choice(ids + [None]), depth=r.choice([0, 1, 3, 5, 7, 9, 12, 16, 22, 30]), meta=meta))
         if sum(1 for p in pm.values() if p < 0) >= 1 and len(ids) > 1:
             yield ('longest', dict(rows=rows, n=r.choice([1, 2, 3, [1, None], [0, 2], [1, 3]]), inverse=r.random() < 0.3, meta=meta))
